@@ -135,7 +135,7 @@ func (e *p2pEnv) rangeReply(beh string, o, a uint64, have int) peers.Reply {
 		return peers.Reply{Kind: "status", Status: 4, Headers: get(o, a)}
 	case "garbage":
 		return peers.Reply{Kind: "garbage", Raw: []byte{0x04, 0x01, 0x02, 0xff, 0xff, 0xff}}
-	case "notfound", "empty", "reset", "hang":
+	case "notfound", "empty", "reset", "hang", "silent":
 		return peers.Reply{Kind: parts[0]}
 	}
 	return peers.Reply{Kind: "notfound"}
@@ -274,6 +274,20 @@ func runSession(prop, tier string, r *rng) {
 		from, _ := strconv.ParseUint(kv["from"], 10, 64)
 		to, _ := strconv.ParseUint(kv["to"], 10, 64)
 		chunk, _ := strconv.ParseUint(kv["chunk"], 10, 64)
+		if kv["kind"] == "twocalls" {
+			switch kv["sub"] {
+			case "":
+				e.twoCallCase(prop, chunk)
+			case "realhang":
+				if re := newRealP2PEnv(2); re != nil {
+					re.scoredCase(prop, "realhang", chunk)
+					re.closer()
+				}
+			default:
+				e.scoredCase(prop, kv["sub"], chunk)
+			}
+			return
+		}
 		var ps []sessPeer
 		for _, pd := range strings.Split(kv["peers"], ",") {
 			f := strings.SplitN(pd, "|", 2)
@@ -336,6 +350,14 @@ func runSession(prop, tier string, r *rng) {
 		}
 		return
 	}
+	// a peer that accepts the request and then stays silent, on a transport whose streams honour deadlines (mocknet's do not):
+	// the request times out after RequestTimeout and is re-assigned to the healthy peer
+	if re := newRealP2PEnv(2); re != nil {
+		for _, chunk := range []uint64{2, 64} {
+			re.scoredCase(prop, "realhang", chunk)
+		}
+		re.closer()
+	}
 	// C18: honest peers that together hold the range; benign faults leaving at least one capable peer
 	chunks := []uint64{1, 2, 3, 5, 8, 64}
 	if tier == "thorough" {
@@ -354,6 +376,7 @@ func runSession(prop, tier string, r *rng) {
 		// NOT_FOUND. What the first call did to peer 0's score must not starve it.
 		if chunk <= 3 {
 			e.twoCallCase(prop, chunk)
+			e.scoredCase(prop, "slowcapable", chunk)
 		}
 		// the stream dies after part of a chunk went out: the remainder of that chunk must be asked for again
 		if chunk >= 3 && chunk <= 8 {
@@ -474,4 +497,91 @@ func (e *p2pEnv) twoCallCase(prop string, chunk uint64) {
 		}
 	}
 	emit("%s kind=twocalls from=%d to=%d chunk=%d first=%s => res=%s err=%s", prop, from, to, chunk, errs(err1), r, ec)
+}
+
+// newRealP2PEnv: the same environment on real loopback transports (nil when they are unavailable)
+func newRealP2PEnv(npeers int) *p2pEnv {
+	hosts, closeAll, err := peers.NewRealHosts(npeers + 1)
+	if err != nil {
+		return nil
+	}
+	e := &p2pEnv{hosts: hosts, closer: closeAll, nilGater: true}
+	for i := 1; i <= npeers; i++ {
+		e.peers = append(e.peers, peers.NewScripted(hosts[i]))
+	}
+	t0 := time.Now().Add(-time.Hour).UnixNano()
+	e.chain = vhdr.Chain("A", 120, t0, 1e9, 0)
+	return e
+}
+
+// scoredCase: peers whose scores were earned earlier (booked through the hook by the real functions).
+//   - slowcapable: the only peer holding the range earned a score below 1 (small answers over a slow link), the lagging peers
+//     are fresh (score 1) and answer NOT_FOUND; their score has to decay below the capable peer's.
+//   - realhang: the best-scored peer accepts the request and stays silent; the other peer is healthy.
+func (e *p2pEnv) scoredCase(prop, kind string, chunk uint64) {
+	var ps []sessPeer
+	reqTimeout, callTimeout := 120*time.Millisecond, 2500*time.Millisecond
+	switch kind {
+	case "slowcapable":
+		ps = []sessPeer{{have: 120}, {have: 5}, {have: 5}, {have: 5}}
+	case "realhang":
+		ps = []sessPeer{{have: 120, behs: []string{"silent"}}, {have: 120}}
+		reqTimeout, callTimeout = 300*time.Millisecond, 1200*time.Millisecond
+	}
+	n := len(ps)
+	ids := make([]peer.ID, n)
+	for i := 0; i < n; i++ {
+		p := ps[i]
+		e.peers[i].Reset(false, func(k int, req *p2p_pb.HeaderRequest) peers.Reply {
+			b := "honest"
+			if k < len(p.behs) {
+				b = p.behs[k]
+			}
+			return e.rangeReply(b, req.GetOrigin(), req.Amount, p.have)
+		})
+		ids[i] = e.hosts[i+1].ID()
+	}
+	ex := e.client(nil, chunk, reqTimeout)
+	defer ex.Stop(context.Background()) //nolint:errcheck
+	ex.VerifSetTrackedPeers(ids...)
+	var score float32
+	switch kind {
+	case "slowcapable":
+		ex.VerifRecordOutcome(ids[0], 250, 500*time.Millisecond)
+		score = ex.VerifRecordOutcome(ids[0], 250, 500*time.Millisecond)
+	case "realhang":
+		score = ex.VerifRecordOutcome(ids[0], 5000, 10*time.Millisecond)
+	}
+	from, to := uint64(6), 6+1+2*chunk
+	if to > 100 {
+		to = 100
+	}
+	ctx, cancel := context.WithTimeout(context.Background(), callTimeout)
+	t0 := time.Now()
+	hs, err := ex.GetRangeByHeight(ctx, e.chain[from-1], to)
+	took := time.Since(t0)
+	cancel()
+	for i := 0; i < n; i++ {
+		e.peers[i].Reset(false, nil)
+	}
+	r := "-"
+	if hs != nil {
+		var xs []string
+		for _, h := range hs {
+			tag := utoa(h.H)
+			if int(h.H) > len(e.chain) || !sameHeader(h, e.chain[h.H-1]) {
+				tag = "X" + tag
+			}
+			xs = append(xs, tag)
+		}
+		r = strings.Join(xs, ",")
+	}
+	ec := "nil"
+	if err != nil {
+		ec = "err"
+		if errors.Is(err, context.DeadlineExceeded) {
+			ec = "ctx"
+		}
+	}
+	emit("%s kind=twocalls sub=%s from=%d to=%d chunk=%d first=score%.2f => res=%s err=%s tookms=%d", prop, kind, from, to, chunk, score, r, ec, took.Milliseconds())
 }
